@@ -28,7 +28,7 @@ for pid in ids:
     })
 man = {
     'version': 1,
-    'setup_cmd': 'cd lean && lake build Librfn LibrfnMath librfn_model',
+    'setup_cmd': 'cd lean && lake build',
     'hooks': {'guard': 'LIBRFN_VERIF', 'enable': 'harnesses are compiled with -DLIBRFN_VERIF; no hook exists in /repo (file-static state is reached by #include of the .c file, interleavings by an include-path stdatomic.h shim)',
               'baseline_off_cmd': 'make -C /repo check', 'source_commits': [], 'add_only': True},
     'engines': [
